@@ -1,0 +1,94 @@
+package vm_test
+
+import (
+	"testing"
+
+	"github.com/elk-language/elk/value"
+	"github.com/elk-language/elk/vm"
+)
+
+func TestHashMapConcatReusesDeletedSlot(t *testing.T) {
+	set := func(hmap *vm.HashMapOfValue, keys ...int) {
+		for _, k := range keys {
+			v := value.SmallInt(k).ToValue()
+			if err := vm.HashMapOfValueSet(nil, hmap, v, v); !err.IsUndefined() {
+				t.Fatalf("unexpected error: %s", err.Inspect())
+			}
+		}
+	}
+
+	// 2 live keys, 1 deleted slot and 2 empty slots
+	x := vm.NewHashMapOfValue(5)
+	set(x, 7, 10, 0)
+	if _, err := vm.HashMapOfValueDelete(nil, x, value.SmallInt(0).ToValue()); !err.IsUndefined() {
+		t.Fatalf("unexpected error: %s", err.Inspect())
+	}
+	if x.Capacity() != 5 {
+		t.Fatalf("expected capacity 5, got %d", x.Capacity())
+	}
+
+	// 3 new keys, the last one has to land in the deleted slot
+	y := vm.NewHashMapOfValue(5)
+	set(y, 2, 6, 11)
+
+	result, err := vm.HashMapOfValueConcat(nil, x, y)
+	if !err.IsUndefined() {
+		t.Fatalf("unexpected error: %s", err.Inspect())
+	}
+	if result.Length() != 5 {
+		t.Fatalf("expected length 5, got %d", result.Length())
+	}
+	for _, k := range []int{2, 6, 7, 10, 11} {
+		contains, err := vm.HashMapOfValueContainsKey(nil, result, value.SmallInt(k).ToValue())
+		if !err.IsUndefined() {
+			t.Fatalf("unexpected error: %s", err.Inspect())
+		}
+		if !contains {
+			t.Fatalf("expected key %d to be present in %s", k, result.Inspect())
+		}
+	}
+}
+
+func TestHashSetCopyReusesDeletedSlot(t *testing.T) {
+	// 3 live values, 1 deleted slot and 1 empty slot
+	target := vm.MustNewHashSetOfValueWithCapacityAndElementsMaxLoad(
+		nil,
+		5,
+		1,
+		value.SmallInt(0).ToValue(),
+		value.SmallInt(1).ToValue(),
+		value.SmallInt(2).ToValue(),
+		value.SmallInt(3).ToValue(),
+	)
+	if _, err := vm.HashSetOfValueDelete(nil, target, value.SmallInt(0).ToValue()); !err.IsUndefined() {
+		t.Fatalf("unexpected error: %s", err.Inspect())
+	}
+	if target.Capacity() != 5 {
+		t.Fatalf("expected capacity 5, got %d", target.Capacity())
+	}
+
+	// 2 new values, the second one has to land in the deleted slot
+	source := vm.MustNewHashSetOfValueWithCapacityAndElements(
+		nil,
+		5,
+		value.SmallInt(12).ToValue(),
+		value.SmallInt(13).ToValue(),
+	)
+
+	err := vm.HashSetOfValueCopy(nil, target, source)
+	if !err.IsUndefined() {
+		t.Fatalf("unexpected error: %s", err.Inspect())
+	}
+	if target.Length() != 5 {
+		t.Fatalf("expected length 5, got %d", target.Length())
+	}
+	for _, k := range []int{1, 2, 3, 12, 13} {
+		contains, err := vm.HashSetOfValueContains(nil, target, value.SmallInt(k).ToValue())
+		if !err.IsUndefined() {
+			t.Fatalf("unexpected error: %s", err.Inspect())
+		}
+		if !contains {
+			t.Fatalf("expected value %d to be present in %s", k, target.Inspect())
+		}
+	}
+}
